@@ -607,8 +607,8 @@ def c17_atmos(rng, tier):
 @oracle("C17", "atmosphere_continuity")
 def c17_atmos_continuity(rng, tier):
     """continuity in altitude, searched with the model as a guide: a window of the table is scanned; every step must respect a
-    Lipschitz bound derived from the table (20 x the largest secant slope of the column: the Akima segments are cubic Hermite
-    polynomials whose knot slopes are combinations of neighbouring secants); where the code starts to differ from the modelled
+    Lipschitz bound derived from the table (125 x the largest secant slope of the column, proved for every Akima interpolant of the
+    table in C17Akima.c17_akima_lipschitz_on_segment); where the code starts to differ from the modelled
     interpolant the switch point is bracketed by bisection to ~1e-7 ft and the same bound is demanded across the bracket"""
     from openaerostruct.common.atmos_comp import AtmosComp
     from . import generate
@@ -617,7 +617,7 @@ def c17_atmos_continuity(rng, tier):
     names = ["T", "P", "rho", "speed_of_sound", "mu", "v"]
     M = float(rng.uniform(0.1, 0.9))
     tab = [np.array(cols[k]) for k in ("T", "P", "rho", "a", "viscosity")]
-    lip = [20.0 * float(np.max(np.abs(np.diff(c) / np.diff(alt)))) for c in tab]
+    lip = [125.0 * float(np.max(np.abs(np.diff(c) / np.diff(alt)))) for c in tab]      # c17_akima_lipschitz_on_segment
     lip.append(M * lip[3])
     lip = np.array(lip)
     consts = np.concatenate([alt] + tab)
